@@ -34,7 +34,9 @@ for _d in range(1, 9):  # nesting depth 1..8 next to sibling groups, inside brac
     SPECIALS += ["{a %s}" % _n, "{%s {h}}" % _n, "{{h} %s}" % _n, "{a %s {h} %s z}" % (_n, _n), '"%s {h}"' % _n, "{%s}" % _n, _n, "%s {h}" % _n]
 INTS = [0, 7, 1990, -5, "0", "7", "1990", "007", "-5", "1e3", "12a", "١٢", "½", "Ⅷ", "四", "1½",
         # digits with white space around or inside, a sign, a separator: text, not digit strings (what stripping `{ 2020 }` leaves)
-        " 7", "7 ", " 1990 ", "19 90", "7\n", "\t7", "1990\x0c", "\xa07", "+7", "1_000", "1,000"]  # the last four: str.isnumeric() but not digits
+        " 7", "7 ", " 1990 ", "19 90", "7\n", "\t7", "1990\x0c", "\xa07", "+7", "1_000", "1,000",
+        # digit strings around and beyond what int() converts (the interpreter's limit is 4300 digits; 640 is the lowest it can be set to)
+        "1" * 639, "1" * 641, "1" * 4300, "1" * 4301, "9" * 5000]  # the last four: str.isnumeric() but not digits
 KEYS = ["year", "month", "pages", "title", "Year", "volume"]
 NUMERIC = {"year", "month", "volume", "number", "pages", "edition", "chapter", "issue"}
 OPTIONS = [(d, r, i) for d in ("{", '"') for r in (True, False) for i in (True, False)]
